@@ -150,6 +150,7 @@ func (x *X) havocCall(f *ssa.Function, args []Val, full string) Val {
 // havocHeap forgets everything about the heap (sound treatment of unknown code).
 func (x *X) havocHeap(why string) {
 	x.logHavoc(".*")
+	x.bumpHeapVersion("*")
 	for k := range x.st.heap {
 		if k == "ALLOC" {
 			old := x.st.heap[k]
@@ -182,6 +183,21 @@ func (x *X) opaqueApp(f *ssa.Function, args []Val) Val {
 			flat = append(flat, s.T)
 			sorts = append(sorts, s.Sort)
 		}
+	}
+	if x.mode == modeVC && !x.inline {
+		// the result may depend on the heap: applications in different versions of the part of the
+		// heap the function reads (its `reads` clause; default everything) are unrelated
+		var reads []string
+		if x.specs != nil {
+			if fs := x.specs.Funcs[name]; fs != nil {
+				reads = fs.Reads
+			}
+		}
+		flat = append(flat, fmt.Sprint(x.heapVersionFor(reads)))
+		sorts = append(sorts, SInt)
+	} else if x.mode == modeVC {
+		flat = append(flat, "0")
+		sorts = append(sorts, SInt)
 	}
 	rt := resultType(f.Signature)
 	var outs []S
